@@ -14,6 +14,39 @@ def emu_ready(c):
     return bool(evs) and evs[0].kind == "E" and evs[0].mcv == b"OHx" and any(o.kind == "E" and o.mcv == b"OHe" for o in evs)
 
 
+def gen_state_change_at_flush(rng, cap, n):
+    """conformant, emulator-ready programs in which the event that overflows the buffer (so that the library writes its
+    OF[ OF] pair right after it) is a thread state change: the thread is paused / cooling / dead when the emulator
+    sees the pair; the thread then goes on (or a new flush follows) so that a later flush is emulated as well"""
+    import struct
+    cases = []
+    for i in range(n):
+        r = rng.fork("s%d" % i)
+        ops = [rb.Op("T", typ=1, value=1), rb.Op("T", typ=2, value=0),
+               rb.E(b"OHx", struct.pack("<i", 0), struct.pack("<i", -1), struct.pack("<Q", 0))]
+        used = 28
+        rounds = r.range(1, 3)
+        for _ in range(rounds):
+            # fill so that the next 12-byte event does not fit: evlen + 12 >= cap
+            room = cap - used
+            want = r.choice([x for x in range(max(0, room - 12), room - 11 + 1) if x >= 0] or [0])
+            fl = rb.fillers(r, want, emu_safe=True) if want in (0, 12) or want >= 14 else None
+            if fl is None:
+                fl = rb.fillers(r, 12, emu_safe=True) if room - 12 >= 12 else []
+            ops += fl
+            kind = r.choice(["p", "c", "p"])
+            if kind == "p":
+                ops += [rb.E(b"OHp"), rb.E(b"OUa"), rb.E(b"OHr")]
+            else:
+                ops += [rb.E(b"OHc"), rb.E(b"OHp"), rb.E(b"OHw"), rb.E(b"OHr")]
+            ops.append(rb.F())
+            used = 24
+        ops += [rb.E(b"OUb"), rb.E(b"OHe"), rb.F(), rb.X()]
+        ck = rb.sorted_clocks(r.fork("clk"), rb.clocks_needed(ops))
+        cases.append(rb.Case(cap, ck, ops, "state-change-at-flush"))
+    return cases
+
+
 def run(chk):
     chk.trusted_base = common.BASE_TRUST + [
         "translator translate/c2gallina.py (clang JSON AST -> Gallina) for ovni_payload_size, ovni_ev_size and the constants, regenerated from the tree under test on every run",
@@ -39,6 +72,7 @@ def run(chk):
     # the smallest capacity the hook allows, not emulator-ready (levels from the thread start included)
     cases += rb.gen_exhaustive(rng.fork("exh64"), 64, emu=False, seg_per_script=40, conformant=True)
     cases += rb.gen_random(rng.fork("rnd"), chk.budget(200, 3000), emu=True)
+    cases += gen_state_change_at_flush(rng.fork("st"), 128, chk.budget(60, 600))
     small = [c for c in cases if c.cap is not None]
     big = [c for c in cases if c.cap is None]
     big += rb.gen_big(rng.fork("big"), chk.budget(20, 260), ctx.defcap, emu=True)
